@@ -285,7 +285,7 @@ func c07CheckPN(c c07PNCase) engine.Result {
 					return
 				}
 				res.Nontrivial++
-				c07Verify(&res, "program-number-sweep", c07Class(sec.Entries), pat, &m, c07Probes(sec.Entries, pb[:0])[:3], false)
+				c07Verify(&res, "program-number-sweep", c07Class(sec.Entries), pat, &m, c07Probes(sec.Entries, pb[:0])[:6], false)
 				if len(res.Fail) > 6 {
 					return
 				}
